@@ -6,6 +6,7 @@ import (
 	"net"
 	"path/filepath"
 	"strings"
+	"sync"
 	"time"
 
 	"github.com/saucelabs/forwarder/verifharness/lib"
@@ -137,3 +138,123 @@ func fullRequest(addr, mode string, h hdr, id string, origin *lib.Origin, r *lib
 	}
 	return res.Status, xff, false
 }
+
+// throttledNeighbour: the PROXY-protocol listener also has a write limit (a limit on what the
+// proxy accepts from clients, shared by all connections of the listener). One well-behaved
+// client uploads more than the burst and is being throttled; connections that present a
+// malformed header, or none, must still fail no later than the header timeout - a neighbour's
+// debt is not theirs.
+func throttledNeighbour(run *lib.Run, hb *lib.Heartbeat) {
+	const idx = 3_900_000
+	if !run.Want(idx) {
+		return
+	}
+	run.Case(idx, "full|write-limit|header-failure-next-to-throttled-upload", nil)
+	defer run.Floor("header_failures_next_to_throttled_upload", 3)
+	origin := lib.MustOrigin("origin-sink", "127.0.0.1:0", nil, func(oc *lib.OConn, req *lib.Msg) lib.Action {
+		oc.Write(lib.SimpleResponse(200, "OK", []lib.Field{{"X-Vid", req.Get1("X-Vid")}}, []byte("ok")))
+		return lib.Continue
+	})
+	defer origin.Close()
+	const headerTimeout = 1500 * time.Millisecond
+	args := []string{"--address", "127.0.0.1:0", "--proxy-localhost", "allow", "--proxy-protocol-listener", "--proxy-protocol-read-header-timeout", "1500ms",
+		"--connect-to", "::127.0.0.1:" + origin.Port(), "--http-dial-attempts", "1", "--write-limit", "1K"}
+	cli, err := lib.StartCLI(lib.Bin(run, "forwarder"), args, nil, filepath.Join(run.Work, "cli-write-limit.log"), "")
+	if err != nil {
+		run.Inconclusive("cli start: " + err.Error())
+		return
+	}
+	defer cli.Stop()
+	up, err := net.DialTimeout("tcp", cli.ProxyAddr, 5*time.Second)
+	if err != nil {
+		run.Inconclusive("dial")
+		return
+	}
+	defer up.Close()
+	const total = 256 << 20
+	fmt.Fprintf(up, "PROXY TCP4 198.51.100.20 127.0.0.1 5000 3128\r\nPOST http://sink.test/up HTTP/1.1\r\nHost: sink.test\r\nContent-Length: %d\r\n\r\n", total)
+	var sent atomicInt
+	go func() {
+		buf := make([]byte, 64<<10)
+		for sent.get() < total {
+			up.SetWriteDeadline(time.Now().Add(60 * time.Second))
+			n, err := up.Write(buf)
+			sent.add(n)
+			if err != nil {
+				return
+			}
+		}
+	}()
+	// wait until the upload has stopped advancing freely (burst used up)
+	t0 := time.Now()
+	last := -1
+	for time.Since(t0) < 10*time.Second {
+		time.Sleep(300 * time.Millisecond)
+		cur := sent.get()
+		if cur >= 4<<20 && cur == last {
+			break
+		}
+		last = cur
+	}
+	if sent.get() < 4<<20 || sent.get() >= total {
+		run.Inconclusive(fmt.Sprintf("throttled neighbour: the upload is not being throttled (%d bytes written)", sent.get()))
+		return
+	}
+	type probe struct {
+		name  string
+		bytes []byte
+		limit time.Duration // from connect
+	}
+	probes := []probe{
+		{"malformed", []byte("HELLO THIS IS NOT A PROXY HEADER\r\n"), headerTimeout},
+		{"v1-bad-family", []byte("PROXY TCP9 1.1.1.1 2.2.2.2 1 2\r\n"), headerTimeout},
+		{"silent", nil, headerTimeout},
+		{"partial", []byte("PROXY TCP4 198.51."), headerTimeout},
+	}
+	var wg sync.WaitGroup
+	for _, pr := range probes {
+		wg.Add(1)
+		go func(pr probe) {
+			defer wg.Done()
+			c, err := net.DialTimeout("tcp", cli.ProxyAddr, 5*time.Second)
+			if err != nil {
+				run.Inconclusive("dial")
+				return
+			}
+			defer c.Close()
+			t1 := time.Now()
+			c.Write(pr.bytes)
+			max := pr.limit + 3*time.Second
+			c.SetReadDeadline(t1.Add(max))
+			buf := make([]byte, 512)
+			for {
+				_, err := c.Read(buf)
+				if err == nil {
+					continue
+				}
+				if ne, ok := err.(net.Error); ok && ne.Timeout() {
+					if hb.Healthy(t1) {
+						run.Violation("header-failure-later-than-timeout:"+pr.name, fmt.Sprintf("connection with a %s PROXY header was still open %.1f s after connecting (header timeout %v) while another connection of the listener is throttled by --write-limit", pr.name, time.Since(t1).Seconds(), headerTimeout), idx, map[string]any{"upload_bytes_written": sent.get()})
+					} else {
+						run.Inconclusive("throttled neighbour: unhealthy heartbeat")
+					}
+				} else {
+					run.Count("header_failures_next_to_throttled_upload", 1)
+				}
+				return
+			}
+		}(pr)
+	}
+	wg.Wait()
+	if !cli.Alive() {
+		run.Violation("process-died:write-limit", "the forwarder process exited: "+lib.Trunc(tailStr(cli.Output(), 1500), 1500), idx, nil)
+	}
+}
+
+type atomicInt struct {
+	mu sync.Mutex
+	v  int
+}
+
+func (a *atomicInt) add(n int) { a.mu.Lock(); a.v += n; a.mu.Unlock() }
+func (a *atomicInt) get() int  { a.mu.Lock(); defer a.mu.Unlock(); return a.v }
